@@ -11,6 +11,7 @@ def lines_of(evs, grace):
     qt = cfg["qtype"] if cfg else "UnboundedBlocking"
     out.append({"k": "cfg", "grace": grace, "dropping": qt.endswith("Dropping"), "bounded": qt.startswith("Bounded")})
     sched = {}
+    files = set()
     for e in evs:
         k = e.get("e")
         if k == "SinkCreated":
@@ -18,8 +19,14 @@ def lines_of(evs, grace):
                 out.append({"k": "sinkget", "s": e["s"], "found": True, "same": False})
                 continue
             out.append({"k": "sink", "s": e["s"], "lvl": e.get("lvl", 0), "tw": _ints(e.get("tw", "")), "tf": _ints(e.get("tf", ""))})
+        elif k == "FileSinkCreated":
+            files.add(e["s"])
+        elif k == "FileRead":
+            out.append({"k": "fileread", "t": e["t"], "s": e["s"], "ids": e["ids"]})
         elif k == "LoggerCreated":
-            out.append({"k": "logger", "lg": e["lg"], "sinks": [x for x in e["sinks"].split(",") if x], "lvl": e.get("lvl", 4),
+            allsinks = [x for x in e["sinks"].split(",") if x]
+            out.append({"k": "logger", "lg": e["lg"], "sinks": [x for x in allsinks if x not in files], "fsinks": [x for x in allsinks if x in files],
+                        "lvl": e.get("lvl", 4),
                         "sys": e.get("clock", "system") == "system", "fresh": bool(e["fresh"])})
         elif k == "CreateRet":
             out.append({"k": "created", "lg": e["lg"], "ptr": e["ptr"], "sinks": [x for x in e.get("sinks", "").split(",") if x]})
